@@ -261,6 +261,33 @@ def run (cfg : Cfg) (s : Sys) (sched : List Nat) : Sys := sched.foldl (stepT cfg
 
 end Alerts
 
+/-! ## C'. reading two fields of one operation (status and error text)
+
+`Operation.SetError` writes phase and error text in ONE critical section of `op.mu`;
+`OperationTracker.unsafePinInfo` reads them through `op.ToTrackerStatus()` and `op.Error()`,
+i.e. in TWO critical sections (`split = true`). Each critical section is one atomic step here. -/
+namespace PairRead
+
+structure St where
+  phase : Nat := 0
+  err : Nat := 0
+  gotPhase : Option Nat := none
+  gotErr : Option Nat := none
+
+/-- `true` = the writer's critical section (sets both fields to 1), `false` = the reader's next one -/
+def step (split : Bool) (s : St) : Bool → St
+  | true => { s with phase := 1, err := 1 }
+  | false =>
+    match s.gotPhase with
+    | none => if split then { s with gotPhase := some s.phase } else { s with gotPhase := some s.phase, gotErr := some s.err }
+    | some _ => match s.gotErr with
+      | none => { s with gotErr := some s.err }
+      | some _ => s
+
+def run (split : Bool) (sched : List Bool) : St := sched.foldl (step split) {}
+
+end PairRead
+
 /-! ## D. the generated lock-fact table -/
 
 inductive GuardKind
